@@ -62,6 +62,22 @@ func NewRequestContext(ctx context.Context, req *envoy_auth.CheckRequest) *Reque
 		}
 	}
 
+	// Envoy sets the path attribute to the request target as it appears in the request line, i.e.
+	// percent-encoded and including the query string, and leaves the query attribute empty.
+	rawPath := req.GetAttributes().GetRequest().GetHttp().GetPath()
+	query := req.GetAttributes().GetRequest().GetHttp().GetQuery()
+
+	if len(query) == 0 {
+		if pathPart, queryPart, found := strings.Cut(rawPath, "?"); found {
+			rawPath, query = pathPart, queryPart
+		}
+	}
+
+	path, err := url.PathUnescape(rawPath)
+	if err != nil {
+		path = rawPath
+	}
+
 	return &RequestContext{
 		ctx:        ctx,
 		ips:        clientIPs,
@@ -70,8 +86,9 @@ func NewRequestContext(ctx context.Context, req *envoy_auth.CheckRequest) *Reque
 		reqURL: &url.URL{
 			Scheme:   req.GetAttributes().GetRequest().GetHttp().GetScheme(),
 			Host:     req.GetAttributes().GetRequest().GetHttp().GetHost(),
-			Path:     req.GetAttributes().GetRequest().GetHttp().GetPath(),
-			RawQuery: req.GetAttributes().GetRequest().GetHttp().GetQuery(),
+			Path:     path,
+			RawPath:  rawPath,
+			RawQuery: query,
 			Fragment: req.GetAttributes().GetRequest().GetHttp().GetFragment(),
 		},
 		reqBody:         req.GetAttributes().GetRequest().GetHttp().GetBody(),
